@@ -1,5 +1,6 @@
 import AmrK.Paths
 import AmrK.PathsMore
+import AmrK.PathsDefaults
 import AmrK.Effects
 import AmrK.Obligations.NoSwallow
 /-! # C13 — tools never touch their inputs and report failures instead of returning
@@ -36,6 +37,24 @@ theorem sibling_ne_iff (abs : Bool) (cs : List Bytes) (last name : Bytes)
     (h : GoodComps (cs ++ [last])) (hn : name ≠ [] ∧ NoByte 47 name) :
     render abs (cs ++ [name]) ≠ render abs (cs ++ [last]) ↔ name ≠ last :=
   Paths.sibling_ne_iff abs cs last name h hn
+
+/-- **the executable default-path model** (`Paths.chefDefault`, `marinateDefault`, compared with where
+    the real tools write): `normpath(p) + suffix` is outside `p` however `p` is written (trailing or
+    doubled slashes included) -/
+theorem concat_default_not_inside (p suffix : Bytes) (h : GoodComps (comps p)) (hs : suffix ≠ []) (hsuf : NoByte 47 suffix) :
+    ¬ Inside (normpath p ++ suffix) p :=
+  Paths.concat_default_not_inside p suffix h hs hsuf
+
+/-- … and every sibling default (`Paths.chk2pltDefault`, `mandolineDefault`) is outside `p` -/
+theorem sibling_default_not_inside (p name : Bytes) (h : GoodComps (comps p)) (hn : name ≠ [] ∧ NoByte 47 name) :
+    ¬ Inside (sibling p name) p :=
+  Paths.sibling_default_not_inside p name h hn
+
+/-- chk2plt's default name always differs from the checkpoint's own name (never the input itself) -/
+theorem chk2plt_name_differs (base : Bytes) :
+    (if replaceAll (ofString "chk") (ofString "plt") base = base then base ++ ofString "_plt"
+     else replaceAll (ofString "chk") (ofString "plt") base) ≠ base :=
+  Paths.chk2plt_name_differs base
 
 /-- **A fault at any write-side call of a run surfaces as an exception** when no write-side call sits
     inside a `try` block whose handlers swallow I/O errors (effects model) -/
